@@ -349,6 +349,8 @@ class Engine:
             return PyObj(z3.Const('py_' + name[2:-5].lower(), Ref), stable=True)
         if name == '_Py_NoneStruct':
             return PyObj(PYNONE, stable=True)
+        if name.startswith('PyExc_'):
+            return PyObj(z3.Const(name, Ref), stable=True)
         hook = getattr(self.cur_contract, 'global_value', None)
         if hook:
             return hook(self, name, n)
@@ -848,6 +850,11 @@ class Engine:
         for s, (base, idx) in self.ev_seq(n.c[:2], st):
             if isinstance(base, ElemRef):   # children[i] on `const py::object children[]` = &agenda[k]
                 outs.append((s, self.read_place(s, ('elem', base.oid, base.idx + as_int(idx)))))
+            elif isinstance(base, Ptr) and base.oid is not None and isinstance(s.heap.get(base.oid), (NodeVec, ScalarVec, PairVec)):
+                v = s.heap[base.oid]            # vector subscript in a template pattern (unresolved operator[])
+                i = as_int(idx)
+                self.oblige(s, 'II', 'vector::operator[]:index-in-range', z3.And(0 <= i, i < v.len), n.get('line'))
+                outs.append((s, ElemRef(base.oid, i)))
             elif isinstance(base, Opaque):
                 outs.append((s, Opaque('subscript')))
             else:
